@@ -6,12 +6,79 @@
 package upstream
 
 // ---------------------------------------------------------------------------
+// Upstream values
+
+//@ pure-method Upstream.EndpointID Upstream.Forward
+//@ immutable ConnUpstream.endpointID ConnUpstream.sess NodeUpstream.endpointID NodeUpstream.node NodeUpstream.tlsConfig
+//@ immutable LoadBalancedManager.cluster LoadBalancedManager.metrics LoadBalancedManager.tlsConfig
+//@ nonnil LoadBalancedManager.cluster LoadBalancedManager.metrics
+//@ refines (*ConnUpstream).EndpointID Upstream.EndpointID
+//@ refines (*ConnUpstream).Forward Upstream.Forward
+//@ refines (*NodeUpstream).EndpointID Upstream.EndpointID
+//@ refines (*NodeUpstream).Forward Upstream.Forward
+
+// ---------------------------------------------------------------------------
+// LoadBalancedManager (C15, C05, C01, C06, C20)
+
+//@ monitor LoadBalancedManager.mu level 10 self m guards LoadBalancedManager.localUpstreams, loadBalancer.upstreams, loadBalancer.nextIndex inv mgrInv(m)
+
+//@ pure lbOf(m *LoadBalancedManager, ep string) *loadBalancer = m.localUpstreams[ep]
+
+// Every registered balancer is non-empty, well-formed, holds only local
+// (non-forwarding) upstreams of exactly its endpoint, and shares no storage
+// with another balancer.
+//@ pure mgrInv(m *LoadBalancedManager) bool = m.localUpstreams != nil
+//@   && (forall ep string :: ep in m.localUpstreams ==> lbOf(m, ep) != nil && allocated(lbOf(m, ep)) && lbWF(lbOf(m, ep)) && len(lbOf(m, ep).upstreams) >= 1
+//@         && arr(lbOf(m, ep).upstreams) > 0 && allocated(lbOf(m, ep).upstreams)
+//@         && (forall j int :: 0 <= j && j < len(lbOf(m, ep).upstreams) ==> lbOf(m, ep).upstreams[j] != nil && lbOf(m, ep).upstreams[j].EndpointID() == ep && !lbOf(m, ep).upstreams[j].Forward()))
+//@   && (forall e1 string, e2 string :: e1 in m.localUpstreams && e2 in m.localUpstreams && e1 != e2 ==> lbOf(m, e1) != lbOf(m, e2) && arr(lbOf(m, e1).upstreams) != arr(lbOf(m, e2).upstreams))
+
+// registered(ep): the number of upstream connections registered for ep.
+//@ pure registered(m *LoadBalancedManager, ep string) int = (ep in m.localUpstreams) ? len(lbOf(m, ep).upstreams) : 0
+
+//@ contract (*LoadBalancedManager).Select
+//@   serves C15 C01 C06 C20
+//@   ensures[same-endpoint] result1 ==> result0 != nil && result0.EndpointID() == endpointID
+//@   ensures[local-first] old(endpointID in m.localUpstreams) ==> result1 && !result0.Forward() && lbMember(lbOf(m, endpointID), result0)
+//@   ensures[no-remote] !allowRemote && result1 ==> !result0.Forward()
+//@   ensures[remote-eligible] result1 && result0.Forward() ==> allowRemote && (exists id string :: eligible(m.cluster, id, endpointID))
+//@   ensures[none] !result1 ==> !(endpointID in m.localUpstreams) && (allowRemote ==> (forall id string :: !eligible(m.cluster, id, endpointID)))
+//@   ensures[registry-unchanged] forall ep string :: registered(m, ep) == old(registered(m, ep))
+
+//@ contract (*LoadBalancedManager).AddConn
+//@   serves C05 C15 C01 C06 C20
+//@   requires[local] u != nil && !u.Forward()
+//@   requires[M] forall ep string :: registered(m, ep) == localCount(m.cluster, ep)
+//@   ensures[registered] registered(m, u.EndpointID()) == old(registered(m, u.EndpointID())) + 1
+//@   ensures[others] forall ep string :: ep != u.EndpointID() ==> registered(m, ep) == old(registered(m, ep))
+//@   ensures[member] lbMember(lbOf(m, u.EndpointID()), u)
+//@   ensures[M] forall ep string :: registered(m, ep) == localCount(m.cluster, ep)
+
+//@ contract (*LoadBalancedManager).RemoveConn
+//@   serves C05 C15 C01 C20
+//@   requires[nonnil] u != nil
+//@   requires[M] forall ep string :: registered(m, ep) == localCount(m.cluster, ep)
+//@   let wasMember = old(u.EndpointID() in m.localUpstreams && lbMember(lbOf(m, u.EndpointID()), u))
+//@   ensures[paired] registered(m, u.EndpointID()) == (wasMember ? old(registered(m, u.EndpointID())) - 1 : old(registered(m, u.EndpointID())))
+//@   ensures[others] forall ep string :: ep != u.EndpointID() ==> registered(m, ep) == old(registered(m, ep))
+//@   ensures[M] forall ep string :: registered(m, ep) == localCount(m.cluster, ep)
+
+//@ contract (*LoadBalancedManager).Endpoints
+//@   serves C05 C20
+//@   ensures[registered] forall ep string :: result[ep] == registered(m, ep)
+//@   loop 1 invariant[copied] forall ep string :: ep in seen ==> ep in endpoints && endpoints[ep] == registered(m, ep)
+//@   loop 1 invariant[only] forall ep string :: ep in endpoints ==> ep in seen && ep in m.localUpstreams
+//@   loop 1 invariant[fresh] endpoints != nil && fresh(endpoints)
+//@   loop 1 invariant[inv] mgrInv(m)
+
+// ---------------------------------------------------------------------------
 // loadBalancer (C15, C05)
 
 //@ pure lbWF(lb *loadBalancer) bool = (len(lb.upstreams) == 0 && lb.nextIndex == 0) || (0 <= lb.nextIndex && lb.nextIndex < len(lb.upstreams))
 //@ pure lbMember(lb *loadBalancer, u Upstream) bool = exists j int :: 0 <= j && j < len(lb.upstreams) && lb.upstreams[j] == u
 
 //@ contract (*loadBalancer).Add
+//@   requires[guard] held(LoadBalancedManager.mu)
 //@   serves C15 C05
 //@   requires[wf] lbWF(lb)
 //@   modifies lb.upstreams, elems(lb.upstreams)
@@ -19,9 +86,10 @@ package upstream
 //@   ensures[last] lb.upstreams[old(len(lb.upstreams))] == u
 //@   ensures[keep] forall j int :: 0 <= j && j < old(len(lb.upstreams)) ==> lb.upstreams[j] == old(lb.upstreams[j])
 //@   ensures[wf] lbWF(lb)
-//@   ensures[arr] arr(lb.upstreams) == old(arr(lb.upstreams)) || fresh(lb.upstreams)
+//@   ensures[arr] (arr(lb.upstreams) == old(arr(lb.upstreams)) && old(len(lb.upstreams)) < old(cap(lb.upstreams))) || fresh(lb.upstreams)
 
 //@ contract (*loadBalancer).Remove
+//@   requires[guard] held(LoadBalancedManager.mu)
 //@   serves C15 C05
 //@   requires[wf] lbWF(lb)
 //@   modifies lb.upstreams, lb.nextIndex, elems(lb.upstreams)
@@ -38,12 +106,14 @@ package upstream
 //@   loop 1 invariant[scan] forall j int :: 0 <= j && j < i ==> lb.upstreams[j] != u
 
 //@ contract (*loadBalancer).Contains
+//@   requires[guard] held(LoadBalancedManager.mu)
 //@   serves C15 C05
 //@   ensures[iff] result == lbMember(lb, u)
 //@   loop 1 invariant[range] -1 <= rangeindex && rangeindex < len(lb.upstreams)
 //@   loop 1 invariant[scan] forall j int :: 0 <= j && j <= rangeindex ==> lb.upstreams[j] != u
 
 //@ contract (*loadBalancer).Next
+//@   requires[guard] held(LoadBalancedManager.mu)
 //@   serves C15
 //@   requires[wf] lbWF(lb)
 //@   modifies lb.nextIndex
